@@ -22,7 +22,7 @@ use crux_core::Core;
 use mc_kit::catch;
 use serde_json::{json, Value as Json};
 
-use crate::c10_app::{partial_app as pa, position_apps as po, readable_app as ra, VerifApp};
+use crate::c10_app::{partial_app as pa, position_apps as po, readable_app as ra, sampled_app as sa, VerifApp};
 use crate::codec::{self, Alphabet, Container, Fmt, Level, Schema, Shape, Space, Val};
 
 #[derive(Clone, Copy, Debug, PartialEq, Eq)]
@@ -315,7 +315,185 @@ pub fn run(main_schema: &Schema) -> Report {
     }
     readable_family(&mut rep, &entries);
     position_family(&mut rep, &entries);
+    sampled_family(&mut rep, &entries);
     rep
+}
+
+// ---------------------------------------------------------------------------------------------
+// Sampled values holding structs that are reached again unsampled
+
+/// Like `position_wires`, for any echo app: every event of the reference schema under `alpha`;
+/// events for which `is_ask` holds are answered with every value of `answer`.
+fn echo_wires<A>(reference: &Schema, alpha: &Alphabet, answer: &str, is_ask: &dyn Fn(&Val) -> bool, transitions: &mut u64) -> Result<Vec<Wire>, String>
+where
+    A: crux_core::App,
+    A::Capabilities: crux_core::WithContext<A::Event, A::Effect>,
+    A::Event: for<'a> serde::Deserialize<'a>,
+{
+    let events = Space::of_container("Event", reference, alpha, 0);
+    let answers = Space::of_container(answer, reference, alpha, 0);
+    let batch = Fmt::Seq(Box::new(Fmt::TypeName("Request".into())));
+    let mut wires = vec![];
+    for i in 0..events.count() {
+        let ev = events.nth(i);
+        let label = codec::render(&ev).to_string();
+        let outs: Vec<Option<Val>> = if is_ask(&ev) { (0..answers.count()).map(|k| Some(answers.nth(k))).collect() } else { vec![None] };
+        for out in outs {
+            let r = catch(|| {
+                let bridge: Bridge<A> = Bridge::new(Core::new());
+                let bytes = codec::encode(&ev);
+                let first = bridge.process_event(&bytes).map_err(|e| format!("process_event refuses {label}: {e}"))?;
+                let mut ws = vec![
+                    Wire { what: "event the core accepts", label: label.clone(), format: Fmt::TypeName("Event".into()), bytes },
+                    Wire { what: "request batch the core emits", label: label.clone(), format: batch.clone(), bytes: first.clone() },
+                ];
+                let mut after = label.clone();
+                if let Some(a) = &out {
+                    let id = if first.len() >= 12 { u32::from_le_bytes(first[8..12].try_into().unwrap()) } else { 0 };
+                    let ab = codec::encode(a);
+                    after = format!("{label} answered {}", codec::render(a));
+                    let second = bridge.handle_response(id, &ab).map_err(|e| format!("handle_response refuses {after}: {e}"))?;
+                    ws.push(Wire { what: "capability output the core accepts", label: after.clone(), format: Fmt::TypeName(answer.into()), bytes: ab });
+                    ws.push(Wire { what: "request batch the core emits", label: after.clone(), format: batch.clone(), bytes: second });
+                }
+                let view = bridge.view().map_err(|e| format!("view fails after {after}: {e}"))?;
+                ws.push(Wire { what: "view the core emits", label: after, format: Fmt::TypeName("ViewModel".into()), bytes: view });
+                Ok::<_, String>(ws)
+            });
+            *transitions += 3;
+            match r {
+                Ok(Ok(ws)) => wires.extend(ws),
+                Ok(Err(e)) => return Err(e),
+                Err(p) => return Err(format!("panic `{}` at {}:{} on {label}", p.message, p.file, p.line)),
+            }
+        }
+    }
+    Ok(wires)
+}
+
+/// The schema a default serde-reflection tracer (struct samples not recorded) builds when the
+/// app's types are registered with the same samples: the complete reference.
+fn sampled_reference() -> Result<Schema, String> {
+    let mut tracer = serde_reflection::Tracer::new(serde_reflection::TracerConfig::default());
+    let mut samples = serde_reflection::Samples::new();
+    let e = |x: serde_reflection::Error| format!("{x}: {}", x.explanation());
+    for s in sa::event_samples() {
+        tracer.trace_value(&mut samples, &s).map_err(e)?;
+    }
+    for s in sa::view_samples() {
+        tracer.trace_value(&mut samples, &s).map_err(e)?;
+    }
+    for s in sa::output_samples() {
+        tracer.trace_value(&mut samples, &s).map_err(e)?;
+    }
+    tracer.trace_type::<sa::Event>(&samples).map_err(e)?;
+    tracer.trace_type::<sa::ViewModel>(&samples).map_err(e)?;
+    tracer.trace_type::<sa::FetchOut>(&samples).map_err(e)?;
+    tracer.trace_type::<sa::FetchRequest>(&samples).map_err(e)?;
+    tracer.trace_type::<sa::EffectFfi>(&samples).map_err(e)?;
+    tracer.trace_type::<crux_core::bridge::Request<sa::EffectFfi>>(&samples).map_err(e)?;
+    codec::schema_of(&tracer.registry().map_err(e)?)
+}
+
+fn sampled_family(rep: &mut Report, entries: &[Entry]) {
+    let replay = || json!({"engine": "enumx/C10", "kind": "typegen", "family": "sampled structs reached again unsampled"});
+    let reference = match sampled_reference() {
+        Ok(r) => r,
+        Err(e) => mc_kit::machinery_error(&format!("the reference registry of the sampled-struct app cannot be traced: {e}")),
+    };
+    // every byte string is a token: exactly four bytes, one of them not UTF-8
+    let alpha = Alphabet { levels: vec![Level { name: "tokens", strings: vec![String::new(), "é".into()], bytes: vec![vec![0, 0, 0, 0], vec![0xff, 0xfe, 0x80, 0x00]], chars: vec!['a'], int_points: 3, seq_lens: vec![0, 1], long_seq: None, some: true }] };
+    let is_ask = |v: &Val| matches!(v, Val::Variant(_, _, n, _) if n == "Ask");
+    let wires = match echo_wires::<sa::SampledApp>(&reference, &alpha, "FetchOut", &is_ask, &mut rep.transitions) {
+        Ok(w) => w,
+        Err(e) => {
+            rep.found.push(Found { key: "SampledApp/bridge-refuses-schema-valid-input".into(), what: e, replay: replay(), size: 1 });
+            return;
+        }
+    };
+    rep.states += wires.len() as u64;
+    let mut decoded = vec![];
+    for w in &wires {
+        rep.transitions += 1;
+        if let Some(why) = undecodable(&reference, w) {
+            rep.found.push(Found { key: "SampledApp/core-bytes-disagree-with-complete-schema".into(), what: format!("{} ({}) = {}: under the completely traced schema it {why}", w.what, w.label, hex(&w.bytes)), replay: replay(), size: w.bytes.len() });
+        }
+        decoded.push(codec::decode(&w.format, &reference, &w.bytes).ok().map(|x| x.0));
+    }
+    *rep.classes.entry("sampled-struct app: bytes the core accepts/emits decode under the complete reference schema".into()).or_insert(0) += wires.len() as u64;
+    rep.info.insert(
+        "sampled_struct_app".into(),
+        json!({
+            "why_samples": "CardId(Tok) cannot be traced blindly",
+            "registered_by": "register_type_with_samples for Event, ViewModel and the capability output FetchOut (two samples each: one plain struct, one tuple struct, each in one outer variant and with one non-first inner variant), then register_app",
+            "positions": {"event": ["Card{id, state: State(2)} in Show (sampled) and Edit", "Pin(CardId, Mode(2)) in Pin (sampled) and Unpin"],
+                          "view model": ["Sheet{id, phase: Phase(2)} in Showing (sampled) and Editing", "Tab(CardId, Side(2)) in Pinned (sampled) and Loose"],
+                          "capability output": ["Hit{id, rank: Rank(2)} in Fresh (sampled) and Cached", "Link(CardId, Kind(2)) in Linked (sampled) and Relinked"]},
+            "inner_enums_registered_on_their_own": false,
+            "wire_items (all variants of every inner enum in every position, through the real bridge)": wires.len(),
+        }),
+    );
+    for e in entries {
+        let dir = TempDir::new(&format!("sampled-{e:?}"));
+        rep.states += 1;
+        rep.transitions += 5;
+        let generated = generate(
+            *e,
+            |g| {
+                g.register_type_with_samples(sa::event_samples())?;
+                g.register_type_with_samples(sa::view_samples())?;
+                g.register_type_with_samples(sa::output_samples())?;
+                g.register_app::<sa::SampledApp>()
+            },
+            &dir.0,
+        );
+        match generated {
+            Err(refusal) => {
+                let mut r = refusal;
+                r.truncate(200);
+                *rep.classes.entry(format!("{}: sampled-struct app: generation refused explicitly", e.name())).or_insert(0) += 1;
+                rep.info.insert(format!("{} for the sampled-struct app", e.name()), json!({"result": "refused", "error": r}));
+            }
+            Ok((Err(why), _)) => rep.found.push(Found { key: "typegen/unresolved-registry-generated".into(), what: format!("{} generated for the sampled-struct app from a registry that is not a schema: {why}", e.name()), replay: replay(), size: 1 }),
+            Ok((Ok(g), files)) => {
+                let mut failing: Vec<(&Wire, String)> = vec![];
+                for (w, want) in wires.iter().zip(&decoded) {
+                    rep.transitions += 1;
+                    if let Some(why) = undecodable(&g, w) {
+                        failing.push((w, why));
+                    } else if let (Ok((v, _)), Some(want)) = (codec::decode(&w.format, &g, &w.bytes), want) {
+                        if &v != want {
+                            failing.push((w, format!("decodes as {} instead of {}", codec::render(&v), codec::render(want))));
+                        }
+                    }
+                }
+                let mut lacks = truncated(&g, &reference);
+                lacks.extend(g.keys().filter(|k| !reference.contains_key(*k)).map(|k| format!("{k} is surplus")));
+                rep.info.insert(format!("{} for the sampled-struct app", e.name()), json!({"result": "generated", "files_written": files, "wire_items_that_disagree": failing.len(), "differences_from_the_complete_schema": lacks}));
+                if failing.is_empty() && lacks.is_empty() {
+                    *rep.classes.entry(format!("{}: sampled-struct app: generated schema complete, every byte string decodes to the same structure", e.name())).or_insert(0) += 1;
+                } else {
+                    *rep.classes.entry(format!("{}: sampled-struct app: VIOLATION schema incomplete", e.name())).or_insert(0) += 1;
+                    let example = failing.iter().min_by_key(|(w, _)| w.bytes.len()).map_or_else(
+                        || "every enumerated byte string still decodes".to_string(),
+                        |(w, why)| format!("e.g. the {} after {} is {} and under the generated schema {why}", w.what, w.label, hex(&w.bytes)),
+                    );
+                    rep.found.push(Found {
+                        key: "typegen/sampled-struct-schema-incomplete".into(),
+                        what: format!(
+                            "{} succeeded for an app registered with samples, but the registry it generated from knows the enums inside sampled structs only from the samples ({}); {} of {} byte strings the core accepts or emits do not decode to the same structure; {example}",
+                            e.name(),
+                            lacks.join("; "),
+                            failing.len(),
+                            wires.len()
+                        ),
+                        replay: replay(),
+                        size: 2,
+                    });
+                }
+            }
+        }
+    }
 }
 
 // ---------------------------------------------------------------------------------------------
